@@ -188,3 +188,51 @@ K.loop(4, var="k", invariant=["0 <= k and k <= 9 and l < nbuffer1 and idxcell[0]
       "forall(p, 0 <= p < k, idxup[p] < 0 or inl(idxup[p]) or exists(q, 0 <= q < i, %s[q] == idxup[p]))" % A,
       _closed("i", " or exists(r, l <= r < nbuffer1, buffer1[r] == dn(c)) or exists(r, 0 <= r < nbuffer2, buffer2[r] == dn(c))")])
 K.loop(5, var="m", invariant=["0 <= m and m <= ninlets", "forall(q, 0 <= q < m, idxinlets[q] != idx)"])
+
+
+# ---------------------------------------------------------------------------------- c_delineate_area: each cell listed once (C06)
+# On a grid without flow cycles (witnessed by a height function that decreases along the downstream relation, as for
+# c_accumulate#acyclic) a successful run lists every cell at most once.  Argument: the listing is made of consecutive layers;
+# buffer1 / buffer2 mirror segments of it (B1POS / B2POS); the downstream cell of a listed cell sits BEFORE the segment still to
+# be processed (PARPOS); so when the slots of one cell are scanned none of them is listed yet, and they stay unlisted until their turn
+# because the slots of c_upstream are pairwise distinct.
+K = F.kernel("c_delineate_area#once")
+K.requires(SANE_GRID)
+K.requires("nval <= 2**58 and ninlets >= 0 and ninlets <= 2**60")
+K.requires(VALIDFD + " and valid(idxinlets, ninlets)")
+K.requires("implies(nval >= 1, valid(idxcells_area, nval) and valid(buffer1, nval) and valid(buffer2, nval))")
+K.requires("separated(flowdircode, flowdir, idxinlets, idxcells_area, buffer1, buffer2)")
+K.requires(FDC_IS)
+K.requires("forall(q, 0 <= q < nval, idxcells_area[q] == -1)")
+K.assigns("idxcells_area[0:nval]", "buffer1[0:nval]", "buffer2[0:nval]")
+K.ghost("dn(c)", "int", "down(nrows, ncols, flowdir[c], c)")
+K.ghost("hgt(c)", "int", None, concrete="ite(valid_cell(nrows, ncols, c) and dn(c) >= 0, 1 + hgt(dn(c)), 0)")
+K.requires("forall(c, 0 <= c < nrows*ncols, 0 <= hgt(c) and implies(dn(c) >= 0, hgt(dn(c)) < hgt(c)), hgt(c))")
+K.ensures("implies(result == 0, forall(p, 0 <= p < nval, forall(q, p < q < nval, %s[p] == -1 or %s[p] != %s[q])))" % (A, A, A), props=["C06"])
+K.loop(0, var="m", invariant=["0 <= m and m <= ninlets", "forall(q, 0 <= q < m, valid_cell(nrows, ncols, idxinlets[q]))"])
+E1 = "ite(nlayer == 1, 1, 0)"
+DIST = "forall(p, 0 <= p < i, forall(q, p < q < i, %s[p] != %s[q]))" % (A, A)
+NOTM1 = "forall(q, 0 <= q < i, %s[q] != -1 and valid_cell(nrows, ncols, %s[q]))" % (A, A)
+RK = "forall(q, 0 <= q < i, hgt(%s[q]) > hgt(idxoutlet) or (nlayer >= 1 and %s[q] == idxoutlet))" % (A, A)
+def _parpos(bound):
+    return "forall(q, 0 <= q < i, %s[q] == idxoutlet or dn(%s[q]) == idxoutlet or exists(p, 0 <= p < %s, %s[p] == dn(%s[q])))" % (A, A, bound, A, A)
+OFF1 = "(i - nbuffer2 - nbuffer1 - %s)" % E1
+K.loop(1, var="nlayer", invariant=[AREA_INV, "nbuffer2 <= i + 1", "implies(nlayer >= 1, nbuffer2 >= 1)", _tail("i"), NOTM1, DIST, RK,
+                                   "implies(nlayer == 0, i == 0 and nbuffer2 == 1 and buffer2[0] == idxoutlet)",
+                                   "implies(nlayer >= 1, i - nbuffer2 - %s >= 0 and forall(r, 0 <= r < nbuffer2, buffer2[r] == %s[i - nbuffer2 - %s + r]))" % (E1, A, E1),
+                                   "forall(r, 0 <= r < nbuffer2, nlayer == 0 or hgt(buffer2[r]) > hgt(idxoutlet))",
+                                   _parpos("i - nbuffer2 - %s" % E1)],
+       variant="nval - i + ite(nlayer == 0, 1, 0)")
+K.loop(2, var="l", invariant=["0 <= l and l <= nbuffer2", "forall(q, 0 <= q < l, buffer1[q] == buffer2[q])"])
+O3 = ["0 <= l and l <= nbuffer1 and nbuffer1 <= nval and 0 <= i and i <= nval - 1 and 0 <= nbuffer2 and nbuffer2 <= i and nlayer >= 0",
+      "valid_cell(nrows, ncols, idxoutlet)", _tail("i"), NOTM1, DIST, RK,
+      "implies(nlayer == 0, nbuffer1 == 1 and buffer1[0] == idxoutlet and i == nbuffer2)",
+      "implies(nlayer >= 1, %s >= 0 and forall(r, 0 <= r < nbuffer1, buffer1[r] == %s[%s + r]))" % (OFF1, A, OFF1),
+      "forall(r, 0 <= r < nbuffer2, buffer2[r] == %s[i - nbuffer2 + r])" % A,
+      "forall(r, 0 <= r < nbuffer1, nlayer == 0 or hgt(buffer1[r]) > hgt(idxoutlet))",
+      "forall(r, 0 <= r < nbuffer2, hgt(buffer2[r]) > hgt(idxoutlet))"]
+K.loop(3, var="l", invariant=O3 + ["i - nbuffer2 == at_loop_entry(i)", "implies(nlayer == 0 and l == 0, i == 0)", _parpos("%s + l" % OFF1)])
+K.loop(4, var="k", invariant=["0 <= k and k <= 9 and l < nbuffer1 and idxcell[0] == buffer1[l]"] + O3 + [
+      "i - nbuffer2 == at_loop_entry(i) - at_loop_entry(nbuffer2)", _parpos("%s + l + 1" % OFF1),
+      "forall(p, k <= p < 9, forall(q, 0 <= q < i, idxup[p] < 0 or %s[q] != idxup[p]))" % A])
+K.loop(5, var="m", invariant=["0 <= m and m <= ninlets"])
